@@ -416,6 +416,8 @@ func main() {
 	}
 	// 3. containers inside containers (reached by fq's probing), one and two levels deep
 	nestedCases(o, r, pool, pick(9, 30))
+	// … and split over the members of a multi-member gzip (field reads that straddle a member boundary)
+	multiGzipCases(o, r, pool, pick(4, 1), pick(1, 3))
 
 	// 4. multi-MiB files on disk through the CLI's open stack (read-ahead cache)
 	for v := 0; v < pick(6, 18); v++ {
